@@ -54,7 +54,7 @@ Proof. exact reads_own_transport. Qed.
 (* non-vacuity: a session that establishes, exchanges, is refused a collision and is torn down meets the
    hypothesis; the model gives its trace; the checkers reject traces that break each clause *)
 Definition C05_es : list event :=
-  [Tick; ConnectOk; Recv OpenOk; Recv Keepalive; Tick; Recv UpdateOk; Incoming true; Teardown 4; Tick].
+  [Tick; ConnectOk; Recv OpenOk; Recv Keepalive; Tick; Recv UpdateOk; Incoming true; Teardown 4; LoopPause; LoopExit; Tick].
 
 Example C05_example :
   over_alphabet C05_es
@@ -66,7 +66,9 @@ Example C05_example :
       (Tick, [Write WUpdate; Write WEor]);
       (Recv UpdateOk, []);
       (Incoming true, []);
-      (Teardown 4, [Write (WNotification 6 4); ApiDown; Fsm Established Idle; CloseTransport]);
+      (Teardown 4, []);
+      (LoopPause, []);
+      (LoopExit, [Write (WNotification 6 4); ApiDown; Fsm Established Idle; CloseTransport]);
       (Tick, [Fsm Idle Active; Fsm Active Idle])]
   /\ check_trans mon0 [(Tick, [Fsm Idle OpenSent])] = false
   /\ check_trans mon0 [(Tick, [Fsm Connect OpenSent])] = false
